@@ -76,7 +76,7 @@ def _lambda_rules(rep, prog):
     lam_obs = [o for o in interps['ssm'].obs if 'ord(c_values)' in o.detail and 'ord(l_values)' in o.detail and o.kind in ('matmul', 'hstack:other-axis', 'vstack:other-axis', 'concatenate:other-axis', 'elementwise', 'block:other-axis')]
     for i, o in enumerate(lam_obs):
         rep.ob('R11.space', f'{o.kind}#{i}', o.verdict, f'{o.detail} [{o.text}]', o.site)
-    if len(lam_obs) < 3:
+    if len(lam_obs) < 2:
         rep.error('space obligations that join the (c_values, l_values) state order vanished')
     # A = invLambda @ S : shared with R10.formula
     class _Sub:
